@@ -34,6 +34,7 @@ class ParserState:
     __slots__ = (
         "_pos_history",
         "_suppress_failures",
+        "_tag_history",
         "atomic_depth",
         "furthest_expected",
         "furthest_pos",
@@ -69,6 +70,7 @@ class ParserState:
         self.atomic_depth = SnapshottingInt()
         self.rule_stack = Stack[Rule | RuleFrame]()  # RuleFrame is for generated code.
         self.tag_stack: list[str] = []  # User tags are always enabled
+        self._tag_history: list[tuple[str, ...]] = []
         self.user_stack = Stack[str]()  # PUSH/POP/PEEK/DROP
 
     def parse_trivia(self, pairs: list[Pair]) -> bool:
@@ -133,6 +135,7 @@ class ParserState:
         self.rule_stack.snapshot()
         self.atomic_depth.snapshot()
         self._pos_history.append(self.pos)
+        self._tag_history.append(tuple(self.tag_stack))
 
     def ok(self) -> None:
         """Commit to the current state after a successful parse.
@@ -144,6 +147,7 @@ class ParserState:
         self.rule_stack.drop_snapshot()
         self.atomic_depth.drop()
         self._pos_history.pop()
+        self._tag_history.pop()
 
     def restore(self) -> None:
         """Restore the state to the most recent checkpoint.
@@ -155,6 +159,8 @@ class ParserState:
         self.rule_stack.restore()
         self.atomic_depth.restore()
         self.pos = self._pos_history.pop()
+        # A tag consumed inside the abandoned attempt is pending again.
+        self.tag_stack = list(self._tag_history.pop())
 
     def push(self, value: str) -> None:
         """Push a value onto the user stack.
